@@ -377,6 +377,12 @@ impl OsIpcSender {
             }
         }
 
+        // The receiver's control buffer has room for `MAX_FDS_IN_CMSG` descriptors only;
+        // anything beyond that would be silently cut off on the receiving side.
+        if fds.len() > MAX_FDS_IN_CMSG as usize {
+            return Err(UnixError::Errno(libc::EMSGSIZE));
+        }
+
         // If the message is small enough, try sending it in a single fragment.
         if data.len() <= Self::get_max_fragment_size() {
             match send_first_fragment(self.fd.0, &fds[..], data, data.len()) {
@@ -408,6 +414,10 @@ impl OsIpcSender {
         let (dedicated_tx, dedicated_rx) = channel()?;
         // Extract FD handle without consuming the Receiver, so the FD doesn't get closed.
         fds.push(dedicated_rx.fd.get());
+        // The dedicated receiver has to fit into the receiver's control buffer as well.
+        if fds.len() > MAX_FDS_IN_CMSG as usize {
+            return Err(UnixError::Errno(libc::EMSGSIZE));
+        }
 
         // Split up the packet into fragments.
         let mut byte_position = 0;
